@@ -16,7 +16,7 @@ RULE = ('one run = one seeded history of up to 30 database operations on one eng
         'never-asserted ones, ground facts, patterns ground / partial / all-variable / repeated-variable; each op goes through a seeded route '
         '(assert_fact API, query() API, compiled wrapper taking the goal as argument, compiled clause with the goal inline) and form (inline term '
         'or a variable bound to it); retracts are exhausted, abandoned after k answers (close/drop) or held suspended across other ops. '
-        'A case = one operation compared with the list model followed by a full read-back of all 9 predicates, with all arguments unbound and with each argument position bound to every value stored there now or earlier; non-trivial = the predicate '
+        'A case = one operation compared with the list model followed by a full read-back of all 10 predicates, with all arguments unbound and with each argument position bound to every value stored there now or earlier; non-trivial = the predicate '
         'had >= 1 fact or the op changed the store; distinct = hash of (op kind, route, form, predicate, pattern, contents of that predicate in the model)')
 ASSUMPTIONS = [
     'ground facts only (non-ground stored facts are C13); no mutation of a predicate while one of its enumerations is suspended (that is C14)',
@@ -29,8 +29,8 @@ COMPONENTS = {'real': ['yldprolog.engine fact store, builtins asserta/assertz/re
 REQUIRED_PROBES = ('fault_retractall_overflow', 'fault_assert_overflow', 'deep_fact_stored', 'op_badgoal', 'bound_argument_readbacks', 'op_assert', 'op_retract', 'op_retractall', 'op_query', 'op_clear', 'route_fact', 'route_query', 'route_wrap', 'route_inline',
                    'form_bound', 'retract_abandoned', 'retract_suspended_across_ops', 'op_on_predicate_without_facts', 'arity0_ops')
 
-KEYS = [('p', 0), ('p', 1), ('p', 2), ('q', 1), ('r', 3), ('flag', 0), ('findall', 1), ('zz', 1), ('yy', 0)]      # findall/1: a name shared with a builtin of another arity
-ASSERTABLE = 7          # the last two keys never get facts
+KEYS = [('p', 0), ('p', 1), ('p', 2), ('q', 1), ('r', 3), ('flag', 0), ('findall', 1), ('atom', 1), ('zz', 1), ('yy', 0)]      # findall/1: a name shared with a builtin of another arity; atom/1: named like an engine helper
+ASSERTABLE = 8          # the last two keys never get facts
 VALS = [['a', 'a'], ['a', 'b'], ['a', 'c'], ['i', 1], ['i', 2], ['f', 'f', [['a', 'a']]], TM.J(TM.mklist([('a', 'a'), ('a', 'b')])),
         ['a', '[]'], TM.J(TM.mklist([('a', 'a')])), ['a', 'x y'], ['a', ''], ['i', 0]]
 
@@ -75,7 +75,7 @@ def gen(seed, tier):
     rng = random.Random(seed)
     ops = []
     p_bound = rng.choice((0.1, 0.3, 0.5))
-    nkeys = rng.choice((2, 4, 9))
+    nkeys = rng.choice((2, 4, 10))
     keyset = rng.sample(range(len(KEYS)), nkeys)
     small_vals = rng.choice((2, 3, 7, 12))
 
